@@ -180,6 +180,9 @@ class Scheduler:
         self.burst = int(plan['config'].get('burst', 0))
         self.newline_p = float(plan['config'].get('newline_p', 0.0)) if generate else 0.0
         self.seen_lines = set()
+        self.freeze_p = float(plan['config'].get('freeze_p', 0.0)) if generate else 0.0
+        self.frozen = {}
+        self.fz = 0
         self._replayed = list(self.switches)        # entries that came with the plan (replay)
         self.outcomes = {}
         self.trace = []                  # (step, from, to, both_in_op)
@@ -191,8 +194,11 @@ class Scheduler:
 
     # -- schedule tape
     def _next_switch(self):
+        fz = 0
         if self.spos < len(self.switches):
-            q, p = self.switches[self.spos]
+            ent = self.switches[self.spos]
+            q, p = ent[0], ent[1]
+            fz = ent[2] if len(ent) > 2 else 0
         elif self.generate:
             r = self.rng.random()
             q = max(1, int(self.rng.expovariate(1.0 / self.mean_q)))
@@ -201,11 +207,15 @@ class Scheduler:
                 # paths a line or two at a time (where cold-start races live)
                 q = self.rng.randint(1, 3)
             p = self.rng.randrange(8)
-            self.switches.append([q, p])
+            if self.freeze_p and self.rng.random() < self.freeze_p:
+                # the thread whose quantum this is will stay parked for a while after it (PCT-style
+                # demotion): "everybody else runs a long way while this one sits in the middle of X"
+                fz = self.rng.choice([5, 20, 100, 1000])
+            self.switches.append([q, p, fz] if fz else [q, p])
         else:
             q, p = 1 << 60, 0
         self.spos += 1
-        self.left, self.pick = q, p
+        self.left, self.pick, self.fz = q, p, fz
 
     # -- tracing
     def global_trace(self, frame, event, arg):
@@ -262,8 +272,12 @@ class Scheduler:
         return self.local_trace
 
     def _switch(self, me):
-        cands = [t for t in self.alive if t != me]
+        cands = [t for t in self.alive if t != me and self.frozen.get(t, 0) <= self.spos]
+        if not cands:
+            cands = [t for t in self.alive if t != me]
         pick = self.pick
+        if self.fz:
+            self.frozen[me] = self.spos + self.fz
         self._next_switch()
         if not cands:
             return
@@ -303,7 +317,8 @@ class Scheduler:
             self.in_op[tid] = False
             self.alive.remove(tid)
             if self.alive and self.error is None:
-                nxt = self.alive[self.pick % len(self.alive)]
+                cands = [t for t in self.alive if self.frozen.get(t, 0) <= self.spos] or self.alive
+                nxt = cands[self.pick % len(cands)]
                 self.trace.append((self.steps, tid, nxt, False))
                 self.cur = nxt
                 self.sems[nxt].release()
@@ -465,7 +480,7 @@ def make_sweep_plan(seed, idx):
     if rng.random() < 0.5:
         threads[-1].append({'k': rng.choice(SWEEP_KINDS[:6]), 'v': version, 'text': rng.choice(texts)})
     cfg = {'quantum': rng.choice([300, 1000, 3000]), 'warm': [], 'first': rng.randrange(nthreads), 'sequential': False,
-           'perm': None, 'rounds': 1, 'pgen_atomic': idx % 4 < 2, 'burst': 0, 'newline_p': rng.choice([0.2, 0.4, 0.6]), 'attempts': 4, 'sweep': [kind, k % len(texts), version]}
+           'perm': None, 'rounds': 1, 'pgen_atomic': idx % 4 < 2, 'burst': 0, 'newline_p': rng.choice([0.2, 0.4, 0.6]), 'freeze_p': rng.choice([0.0, 0.1, 0.3]), 'attempts': 4, 'sweep': [kind, k % len(texts), version]}
     return {'sim': 'threadsim', 'seed': seed, 'config': cfg, 'threads': threads, 'switches': [], 'more': []}
 
 
@@ -508,7 +523,7 @@ def make_plan(seed, tier='quick'):
            'warm': versions if warm else [], 'first': rng.randrange(nthreads), 'sequential': sequential, 'perm': perm,
            'rounds': 1 if sequential else rng.choice([1, 1, 2, 3]), 'pgen_atomic': rng.random() < 0.5,
            'burst': rng.choice([0, 0, 100, 400, 1500]) if not warm else 0,
-           'newline_p': rng.choice([0.0, 0.0, 0.1, 0.3, 0.5])}
+           'newline_p': rng.choice([0.0, 0.0, 0.1, 0.3, 0.5]), 'freeze_p': rng.choice([0.0, 0.0, 0.05, 0.2])}
     if cfg['burst'] and not sequential and rng.random() < 0.5:
         # ... with every thread starting on the same grammar
         v0 = threads[0][0]['v']
